@@ -313,7 +313,8 @@ def run_one(ck, prog):
                 continue
             n_to += 1
             facts = panics.dominating_facts(ctx, tb)
-            ok = any(f[0] == "cmp" and f[1] == "Eq" and 0 in (fold(f[2]), fold(f[3])) and any(mentions(x, ctx.prov, lambda z: z[0] == "call" and z[3] in polls) for x in (f[2], f[3])) for f in facts)
+            ok = any(f[0] == "cmp" and f[1] == "Eq" and 0 in (fold(f[2]), fold(f[3])) and any(mentions(x, ctx.prov, lambda z: z[0] == "call" and z[3] in polls) for x in (f[2], f[3])) for f in facts) or \
+                any(f[0] == "cmp" and ((f[1] == "Lt" and fold(f[3]) == 1) or (f[1] == "Le" and fold(f[3]) == 0)) and mentions(f[2], ctx.prov, lambda z: z[0] == "call" and z[3] in polls) for f in facts)   # `ready < 1` on the unsigned count
             ck.ob("C16.3", f"{p}|timeout-only-when-poll-returned-0", ok and bool(polls), fn=p, site=span_str(sp), detail="Error::Timeout may only be produced when ppoll reported 0 ready descriptors (its timeout expired)")
         for pb in polls:
             a = ctx.args(pb)
